@@ -140,6 +140,13 @@ TUpdateNaN == IsEvent("UpdateNaN") /\ LET e == Log[l]  o == WithObs(obj[e.id], P
           /\ Named(o, e) /\ Observe(e.id, Post(e)) /\ UNCHANGED <<blob, ck, sh>>
 TMerge == IsEvent("Merge") /\ LET e == Log[l]  o == WithObs(AfterMerge(obj[e.dst], obj[e.src]), Post(e)) IN
           /\ Named(o, e) /\ Merge(e.dst, e.src, e.rv, Post(e)) /\ TwinOK(e, o) /\ UNCHANGED blob
+          \* an EMPTY target comes out as the source: n and the extremes exactly (ghost clauses, every family).  The classic sketch
+          \* moreover becomes a COPY of an ESTIMATING source - the same retained items, weights and k whatever the two k (equal, larger,
+          \* smaller: an empty operand is never down-sampled).  (An exact source is streamed in item by item and KLL replays the source's
+          \* level 0 through its own capacity schedule: both may compact with the target's k; nothing more is claimed there.)
+          /\ Chk("merge-into-empty=source",
+                 (o.fam = "classic" /\ obj[e.dst].n = 0 /\ obj[e.src].est /\ obj[e.src].pairs # NoObs)
+                   => (e.pairs = obj[e.src].pairs /\ e.est /\ e.k = obj[e.src].k))
           /\ LET c == CkMerge(CkOf(e.dst), CkOf(e.src), e.est, e.k) IN Published(e, o.fam, c) /\ ck' = (e.dst :> c) @@ ck
           /\ LET r == ShMerge(ShOf(e.dst), ShOf(e.src), Coins(e)) IN CoinsOK(e, r.used) /\ LevelsOK(e, r.d) /\ sh' = ShSet((e.dst :> r.d) @@ sh)
 TObs == IsEvent("Obs") /\ LET e == Log[l]  o == WithObs(obj[e.id], Post(e)) IN
@@ -149,6 +156,22 @@ TObs == IsEvent("Obs") /\ LET e == Log[l]  o == WithObs(obj[e.id], Post(e)) IN
           /\ LevelsOK(e, ShOf(e.id)) /\ sh' = ShSet((e.id :> ShSorted(ShOf(e.id))) @@ sh)
 TCopy == IsEvent("Copy") /\ LET e == Log[l] IN Copy(e.src, e.dst) /\ ck' = (e.dst :> CkOf(e.src)) @@ ck /\ UNCHANGED blob
           /\ sh' = ShSet((e.dst :> ShOf(e.src)) @@ sh)
+\* type-converting copy to a wider item type with the same order: the same sketch (scalars, extremes through the ghost, pairs, levels)
+TConvert == IsEvent("Convert") /\ LET e == Log[l]  o == WithObs(obj[e.src], Post(e)) IN
+          /\ Named(o, e)
+          /\ Chk("converting-copy=source", e.k = obj[e.src].k /\ e.est = obj[e.src].est /\ e.nret = obj[e.src].nret
+                                           /\ (obj[e.src].pairs # NoObs => e.pairs = obj[e.src].pairs))
+          /\ Chk("iteration-yields-num-retained", e.iterN = e.nret)
+          /\ LevelsOK(e, ShOf(e.src))
+          /\ obj' = (e.dst :> o) @@ obj /\ ck' = (e.dst :> CkOf(e.src)) @@ ck /\ sh' = ShSet((e.dst :> ShOf(e.src)) @@ sh) /\ UNCHANGED blob
+\* ... under the reversed comparator a level that holds two different items is no longer sorted: the copy must be refused
+TConvertReversed == IsEvent("ConvertReversed") /\ LET e == Log[l] IN
+          /\ Chk("converting-copy-refuses-broken-order", e.distinct => e.threw)
+          /\ UNCHANGED <<obj, blob, ck, sh>>
+\* a strict prefix of an image must be rejected by the stream reader even when the user's serde does not check the stream (C11)
+TTruncStream == IsEvent("TruncStream") /\ LET e == Log[l] IN
+          /\ Chk("C11:truncated-stream-rejected", e.cut < e.size => e.threw)
+          /\ UNCHANGED <<obj, blob, ck, sh>>
 TDestroy == IsEvent("Destroy") /\ LET e == Log[l] IN Destroy(e.id) /\ UNCHANGED <<blob, ck, sh>>
 \* invalid queries must throw: any query of an empty sketch, normalized rank outside [0,1], NaN / unsorted / repeated split points
 TInvalid == IsEvent("Invalid") /\ LET e == Log[l] IN
@@ -180,7 +203,7 @@ TDeser == IsEvent("Deser") /\ LET e == Log[l]  b == blob[e.blob]  v == b.val  o 
           /\ obj' = (e.dst :> o) @@ obj /\ ck' = (e.dst :> b.ck) @@ ck /\ sh' = ShSet((e.dst :> ShRestored(b.sh, Coins(e))) @@ sh) /\ UNCHANGED blob
 
 TInit == obj = <<>> /\ l = 1 /\ blob = <<>> /\ ck = <<>> /\ sh = <<>>
-TNext == TBegin \/ TNew \/ TUpdate \/ TUpdateNaN \/ TMerge \/ TObs \/ TCopy \/ TDestroy \/ TInvalid \/ TSer \/ TDeser
+TNext == TBegin \/ TNew \/ TUpdate \/ TUpdateNaN \/ TMerge \/ TObs \/ TCopy \/ TConvert \/ TConvertReversed \/ TTruncStream \/ TDestroy \/ TInvalid \/ TSer \/ TDeser
 TSpec == TInit /\ [][TNext]_tvars
 \* cheap per-state invariant (the clauses are evaluated by name at every event)
 TInv == TRUE
